@@ -121,6 +121,12 @@ def identifier_cases(rnd):
             (lab, "@string S = q:%s;\n%s = 'b';\n@export A = S;\n" % (n, n), None, None),
             (lab, "@string S = %s:B;\nB = 'b';\n@export A = S;\n" % n, None, None),
         ]
+    # path segments are the only names the grammar of grammars lets contain non-ASCII characters; the model's
+    # identifier alphabet is ASCII (any non-ASCII byte is taken as an identifier character, the Unicode XID tables
+    # are not modelled): the compiler has to answer, the classes are compared for the ASCII part only
+    for n in ("é", "😀crate", "chk😀lower", "→"):
+        out += [("ident-nonascii", "@check(%s::f) @export A = 'a';\n" % n, None, None),
+                ("ident-nonascii", "@export A = X;\n@extern(crate::%s) X;\n" % n, None, None)]
     for d in (["serde::Serialize"], ["Debug", ""], ["Vec<u8>"], ["0x"], ["self"], ["Debug", "Clone", "_"], ["Clone "]):
         out.append(("derive-odd", "@export A = 'a' b:B;\nB = 'b';\n", d, None))
     return out
